@@ -288,7 +288,10 @@ pub fn run<F: FnOnce() + 'static>(cfg: RunConfig, strategy: Box<dyn Strategy>, r
     let kp = Box::into_raw(kernel);
     KERNEL.with(|k| unsafe { *k.get() = kp });
 
-    spawn_task("controller".to_string(), root);
+    // like every other task: a panic ends the task, never the process
+    spawn_task("controller".to_string(), move || {
+        let _ = catch_unwind(root);
+    });
     unsafe { (*kp).next = Some(0) };
 
     let outcome;
